@@ -102,12 +102,15 @@ class LeanSide:
             out = "audit timed out"
         self.audit_log = out[-4000:]
         res = {t: None for t in theorems}
-        for m in re.finditer(
-            r"'([^']+)' depends on axioms: \[([^\]]*)\]", out.replace("\n", " ")
-        ):
-            res[m.group(1)] = [a.strip() for a in m.group(2).split(",") if a.strip()]
-        for m in re.finditer(r"'([^']+)' does not depend on any axioms", out):
-            res[m.group(1)] = []
+        flat = out.replace("\n", " ")
+        for t in theorems:  # literal search: theorem names may themselves contain apostrophes
+            k = flat.find(f"'{t}' depends on axioms: [")
+            if k >= 0:
+                body = flat[k + len(f"'{t}' depends on axioms: ["):]
+                body = body[: body.find("]")]
+                res[t] = [a.strip() for a in body.split(",") if a.strip()]
+            elif f"'{t}' does not depend on any axioms" in flat:
+                res[t] = []
         # names may be printed without the leading namespace opened; match by suffix
         for t in theorems:
             if res[t] is None:
